@@ -66,6 +66,9 @@ func oracleSig(key, msg, sig []byte) bool {
 type vrCase struct {
 	key, nkid, enc, sig, blind, clientKey []byte
 	preRegistered                         bool
+	// staleFrom: the request OBJECT first held these (honest) values and was marshalled (so that it carries a cached
+	// encoding), and only then were its fields set to this case's values
+	staleFrom *vrCase
 }
 
 func doVerifyRequest(c *h.Ctx, cat_ string, v vrCase) {
@@ -75,6 +78,13 @@ func doVerifyRequest(c *h.Ctx, cat_ string, v vrCase) {
 		cache.m[hex.EncodeToString(v.clientKey)] = &type3.ClientState{}
 	}
 	req := type3.RateLimitedTokenRequest{RequestKey: v.key, NameKeyID: v.nkid, EncryptedTokenRequest: v.enc, Signature: v.sig}
+	if v.staleFrom != nil {
+		o := v.staleFrom
+		req = type3.RateLimitedTokenRequest{RequestKey: o.key, NameKeyID: o.nkid, EncryptedTokenRequest: o.enc, Signature: o.sig}
+		req.Marshal()
+		req.RequestKey, req.NameKeyID, req.EncryptedTokenRequest, req.Signature = v.key, v.nkid, v.enc, v.sig
+		cat_ += ":object-marshalled-before-the-change"
+	}
 	var err error
 	pan, msg := h.Protect(func() { err = att.VerifyRequest(req, v.blind, v.clientKey, []byte("anon")) })
 	// oracles, independent of pat-go
@@ -186,6 +196,32 @@ func runC06(c *h.Ctx) {
 			v := base
 			v.blind = flipBit(base.blind, i)
 			doVerifyRequest(c, "bitflip:blind", v)
+		}
+		// the same changes made to a request OBJECT that was marshalled while it still held the honest values
+		// (a cached encoding must never stand in for the current field contents)
+		hb := base
+		stale := base
+		stale.staleFrom = &hb
+		doVerifyRequest(c, "honest", stale)
+		for i := 0; i < 8*len(base.key); i += 3 * stride {
+			v := stale
+			v.key = flipBit(base.key, i)
+			doVerifyRequest(c, "bitflip:request-key", v)
+		}
+		for i := 0; i < 8*len(base.nkid); i += 3 * stride {
+			v := stale
+			v.nkid = flipBit(base.nkid, i)
+			doVerifyRequest(c, "bitflip:name-key-id", v)
+		}
+		for i := 0; i < 8*len(base.enc); i += 3 * encStride {
+			v := stale
+			v.enc = flipBit(base.enc, i)
+			doVerifyRequest(c, "bitflip:ciphertext", v)
+		}
+		for i := 0; i < 8*len(base.sig); i += 3 * stride {
+			v := stale
+			v.sig = flipBit(base.sig, i)
+			doVerifyRequest(c, "bitflip:signature", v)
 		}
 		// signature by another key / over other contents
 		blind2 := rnd(c, 48)
